@@ -12,6 +12,7 @@ import time
 import numpy as np
 
 import core
+import gen
 from core import call_impl
 import _c04_ops as O
 from _c04_ops import QUANTS, SIGNAL_QUANTS, CONTENT_INDEPENDENT
@@ -277,7 +278,8 @@ def run(ctx):
     for i in range(n_random):
         base = bases[i % len(bases)]
         if i % 7 == 0:
-            base = start_args(rng, rng.choice([33, 60, 64, 77]), rng.choice([0.01, 0.02, 0.005]))
+            # (+ source hints: record lengths around every new integer constant of eqsig/single.py, time steps at / around every new float constant)
+            base = start_args(rng, rng.choice([33, 60, 64, 77] + gen.hint_sizes(ctx, lo=8, hi=600, cap=8)), rng.choice([0.01, 0.02, 0.005] + gen.hint_values(ctx, 1e-3, 1.0, cap=6, maps=(lambda c: c, lambda c: 1 / c))))
         L = rng.randint(1, maxlen)
         word = []
         for _ in range(L):
@@ -460,8 +462,9 @@ def extras2(ctx):
     # (c) LARGE records (5 200 / 8 192 samples): read everything, mutate, compare once at the end
     cheap = [m for m in ('reset_values', 'add_constant', 'add_series', 'remove_average', 'rebase_displacement', 'set_zero_residual_velocity', 'running_average',
                          'smooth_fa_freqs=', 'response_times=', 'gen_fa_spectrum', 'generate_displacement_and_velocity_series') if m in rows]
-    for i in range(3 if quick else 12):
-        n = (5200, 8192, 6001)[i % 3]
+    hs = gen.hint_sizes(ctx, lo=601, hi=40000, cap=3)          # source hints: record lengths around every new integer constant of eqsig/single.py
+    for i in range((3 if quick else 12) + len(hs)):
+        n = (5200, 8192, 6001)[i % 3] if i >= len(hs) else hs[i]
         v0 = O.rec(rng, n)
         m1, m2 = rng.choice([m for m in cheap if m in O.VALUE_MUTATORS] or cheap), rng.choice(cheap)      # the first mutation always changes the record
         a1 = {'values': O.rec(rng, n).tolist()} if m1 == 'reset_values' else None
